@@ -24,6 +24,11 @@
  *          optreset = 1 in a process that has parsed before.
  *   fresh  every vector of length 0..3 parsed as the very first use
  *          of getopt in a newly forked process (optreset not touched).
+ *          Before anything else main() looks at the state the library
+ *          starts in (optind == 1, optreset non-zero as getopt.c documents,
+ *          not yet initialized); a library that starts differently is
+ *          reported as C18:fresh:initial-state and the fresh mode is
+ *          skipped (the other modes set optreset themselves).
  *   reset  every pair (v1 parsed with table t1 and abandoned after j
  *          options, j = 0..all and "ran to the end"; then optreset = 1 and
  *          v2 parsed with table t2), all 9 table pairs, |v1|,|v2| <= 2
@@ -619,6 +624,28 @@ vec_count(int nalpha, int maxlen)
 
 /* mode fresh: every vector parsed as the first getopt use of a new process */
 static int fresh_len;
+
+/*
+ * The state a process that never called getopt finds.  main() samples it before it does anything else, so a
+ * deviation can only come from the initialisers in getopt.c: a verdict about the library (violation), while
+ * the same test inside fresh_child guards the harness's own ordering (engine error).  Returns 1 if as documented.
+ */
+static int
+fresh_initial_state(int report_it)
+{
+	static const char rj[] = "{\"mode\":\"fresh\",\"table\":0,\"alpha\":0,\"v\":[],\"abandon\":0}";
+
+	if (getopt_initialized == 0 && optreset != 0 && optind == 1)
+		return (1);
+	if (report_it) {
+		vf_violation("C18:fresh:initial-state", rj, "a process that never called getopt starts with optind = %d, optreset = %d, getopt_initialized = %d; "
+		    "getopt.c documents optind = 1, optreset non-zero (to trigger the initialization) and no initialization yet: the first parse is not a fresh parse",
+		    optind, optreset, getopt_initialized);
+		if (verbose)
+			printf("  fresh: initial state optind %d optreset %d getopt_initialized %d  <-- initial-state\n", optind, optreset, getopt_initialized);
+	}
+	return (0);
+}
 #define FRESH_CHUNK 64
 
 struct fresh_arg {
@@ -630,7 +657,8 @@ fresh_child(void * arg)
 {
 	struct fresh_arg * a = arg;
 
-	if (getopt_initialized != 0 || optreset != 1 || optind != 1)
+	/* (main() has seen the documented initial state, else this mode is skipped: only the harness's ordering can break this) */
+	if (getopt_initialized != 0 || optreset == 0 || optind != 1)
 		vf_engine_error("fresh: this process has used getopt before (initialized=%d optreset=%d optind=%d)", getopt_initialized, optreset, optind);
 	one_parse(&a->c, 0);
 	tally_flush();
@@ -891,6 +919,8 @@ do_replay(const char * j)
 		c.n = nb - 2;
 		c.v = raw + 2;
 		printf("replaying crash case (%s)\n", c.mode);
+		if (strcmp(c.mode, "fresh") == 0 && !fresh_initial_state(1))
+			return (vf_finish());
 		one_parse(&c, strcmp(c.mode, "fresh") != 0);
 		return (vf_finish());
 	}
@@ -927,6 +957,8 @@ do_replay(const char * j)
 		c.n = n;
 		c.v = v;
 		/* the replay process itself is new: a fresh case is parsed without touching optreset */
+		if (strcmp(c.mode, "fresh") == 0 && !fresh_initial_state(1))
+			return (vf_finish());
 		one_parse(&c, strcmp(c.mode, "fresh") != 0);
 	}
 	return (vf_finish());
@@ -973,10 +1005,11 @@ int
 main(int argc, char ** argv)
 {
 	const char * part = "all";
-	int len = -1, wlen = -1, i, t;
+	int len = -1, wlen = -1, i, t, fresh_ok;
 	uint64_t expect, n;
 
 	vf_init(&argc, argv, "h_getopt");
+	fresh_ok = fresh_initial_state(0);	/* before this process could have touched getopt */
 	for (i = 1; i < argc; i++) {
 		if (!strcmp(argv[i], "--part") && i + 1 < argc)
 			part = argv[++i];
@@ -1004,7 +1037,10 @@ main(int argc, char ** argv)
 	 * that never called getopt; this main process never does.
 	 */
 #define ALLPART(p) (!strcmp(part, "all") || !strcmp(part, p))
-	if (ALLPART("fresh")) {
+	if (ALLPART("fresh") && !fresh_ok) {
+		vf_count("fresh.exhaustive", 0);
+		fresh_initial_state(1);		/* violation C18:fresh:initial-state; nothing to explore from that state */
+	} else if (ALLPART("fresh")) {
 		uint64_t per = (vec_count(18, fresh_len) + FRESH_CHUNK - 1) / FRESH_CHUNK;
 
 		vf_count("fresh.exhaustive", 0);
